@@ -1093,7 +1093,7 @@ func (c *TermCtx) AbstractNL(t *Term) *Term {
 					a, b = b, a
 				}
 				r = c.UF("nl_mul", SInt, a, b)
-			case (x.Name == "div" || x.Name == "mod" || x.Name == "go_quo" || x.Name == "go_rem") && len(args) == 2 && args[1].Op != "int":
+			case (x.Name == "div" || x.Name == "mod" || x.Name == "go_quo" || x.Name == "go_rem" || x.Name == "goquo" || x.Name == "gorem") && len(args) == 2 && args[1].Op != "int":
 				r = c.UF("nl_"+x.Name, SInt, args[0], args[1])
 			default:
 				same := true
